@@ -52,8 +52,11 @@ Proof.
 Qed.
 
 (** * The ten active ASCII characters *)
-Lemma active_sweep : forallb (fun xml => forallb (active_ok xml) active_ascii) [false; true] = true.
+Lemma active_offenders : tagged_offenders active_ok active_ascii = [].
 Proof. vm_compute. reflexivity. Qed.
+
+Lemma active_sweep : forallb (fun xml => forallb (active_ok xml) active_ascii) [false; true] = true.
+Proof. exact (tagged_offenders_nil active_ok active_ascii active_offenders). Qed.
 
 Theorem active_ascii_escaped : forall xml c p,
   In c active_ascii -> In p all_prots ->
@@ -76,8 +79,11 @@ Proof.
 Qed.
 
 (** * The known findings are exactly the failing keys *)
-Lemma known_sweep : forallb known_fails known_xml_unparseable = true.
+Lemma known_offenders : filter (fun c => negb (known_fails c)) known_xml_unparseable = [].
 Proof. vm_compute. reflexivity. Qed.
+
+Lemma known_sweep : forallb known_fails known_xml_unparseable = true.
+Proof. exact (offenders_nil known_fails known_xml_unparseable known_offenders). Qed.
 
 (** each listed code point IS a key of the unicode-xml table whose chunk does
     not parse under 'none', 'braces', 'braces-all', 'braces-almost-all' *)
@@ -120,9 +126,3 @@ Proof.
     destruct (known_findings_fail c PNone Hc (or_introl eq_refl)) as (r' & pos & Hr' & Hp).
     rewrite Hr in Hr'. injection Hr' as <-. congruence.
 Qed.
-
-(** non-vacuity witnesses used by Properties/C13.v *)
-Lemma math_entry_example :
-  map_lookup (map_of true) 940 = Some [92; 39; 123; 36; 92; 97; 108; 112; 104; 97; 36; 125] /\
-  parse_encoded (apply_protection PBraces [92; 39; 123; 36; 92; 97; 108; 112; 104; 97; 36; 125]) = IParsed 0 0 1.
-Proof. vm_compute. split; reflexivity. Qed.
